@@ -8,9 +8,13 @@ A Cuboid cut by axis-parallel planes (one cut, a list of cuts along one axis, a 
 sum of its parts with the same polarization — `cuboid_split_x/y/z`, `cuboid_split_x_list`,
 `cuboid_grid_partition` for the kernel `cuboidB`, `cuboid_split_wrapper_x/y/z` and
 `cuboid_grid_partition_wrapper` for all four fields of `bhjmCuboid` (via the surface-charge integral of C01, Lemmas/CuboidSplit.lean).
+TriangularMesh.from_mesh / from_triangles (the `np.unique` glue, Model/MeshUnique.lean) give back the soup (`from_mesh_roundtrip`,
+`from_mesh_preserves_field`), to_TriangleCollection is the sheet sum without the inside term; meshes and Tetrahedra glued along
+shared walls add up (`trimesh_glue_additive`, `tetra_pair_glue`, `tetra_list_glue`); a Triangle cut through a point of an edge:
+everything but the solid angle (`triangle_split_additive_partial`).
 /- FULL: Cuboid = its mesh = its tetrahedra; Cylinder = full-angle segment = sum of segments;
-   partition additivity of Cylinder / CylinderSegment / Sphere / meshes; Polyline → Circle.  These equate
-   different closed forms (each equivalent to C01 for both sides) and are not shown by theorem; the
+   partition additivity of Cylinder / CylinderSegment / Sphere, of meshes cut through the interior of faces; Polyline → Circle.
+   These equate different closed forms (each equivalent to C01 for both sides) and are not shown by theorem; the
    whole-vs-parts oracle checks them on the real code. -/
 -/
 import MagpyVerif.Lemmas.KernCylSeg
@@ -21,6 +25,9 @@ import MagpyVerif.Lemmas.KernAlgebra
 import MagpyVerif.Lemmas.SegmentBS
 import MagpyVerif.Lemmas.TrimeshSum
 import MagpyVerif.Lemmas.CuboidSplit
+import MagpyVerif.Lemmas.MeshUnique
+import MagpyVerif.Lemmas.TrimeshGlue
+import MagpyVerif.Lemmas.TriangleSplit
 namespace MagpyVerif.C13
 open MagpyVerif MagpyVerif.Kern
 
@@ -408,5 +415,267 @@ example :
       bhjmCuboid .H (⟨2, 2, 2⟩ : V3 ℝ) ⟨0, 0, 1⟩ ⟨1 / 2, 1 / 3, -1 / 4⟩ := by
   apply cuboid_grid_partition_wrapper .H (⟨2, 2, 2⟩ : V3 ℝ) ⟨0, 0, 1⟩ ⟨1 / 2, 1 / 3, -1 / 4⟩ [-1 / 2, 1 / 4] [0] [] <;>
     simp [rtol] <;> norm_num [abs_of_pos, abs_of_neg]
+
+end MagpyVerif.C13
+
+/-! ### TriangularMesh converters: `from_mesh`, `from_triangles`, `to_TriangleCollection` (Model/MeshUnique.lean, Lemmas/MeshUnique.lean)
+
+`from_mesh` and `from_triangles` turn a triangle soup into `(vertices, faces)` with
+`np.unique(mesh.reshape((-1, 3)), axis=0, return_inverse=True)`; the object's `mesh` property — the array handed to
+`BHJM_magnet_trimesh` — is `vertices[faces]` (`meshArray`).  The model of the two glue lines is run by the driver (`mesh unique`) and
+compared with the real `from_mesh` / `from_triangles` on random soups (signed zeros, repeated corners, NaN, lengths 1e-9 … 1e6).
+`RowLaws c`: the row order is a total preorder whose symmetric part is the row equality — true of ℝ (`rowLaws_real`), of ℚ, and of
+IEEE doubles without NaN (where the symmetric part identifies −0.0 and 0.0).  With a NaN corner the statement is false of numpy as of
+the model (`nan != nan`: the row is kept, but `vertices[faces] == mesh` fails there); the driver reports that verdict per soup. -/
+namespace MagpyVerif.C13
+open MagpyVerif MagpyVerif.Kern
+
+/-- `np.unique(points, axis=0, return_inverse=True)`: every input row is `==` to the unique row its inverse index points at, the
+unique rows are pairwise `!=`, each of them is an input row, and the inverse has one entry per input row -/
+theorem unique_rows_spec {α : Type} {c : RowCmp α} (h : RowLaws c) (pts : List (V3 α)) :
+    (∀ i (hi : i < pts.length), ∃ j v, (uniqueRows c pts).2[i]? = some j ∧ (uniqueRows c pts).1[j]? = some v ∧
+        rowEq c v pts[i] = true) ∧
+    (uniqueRows c pts).1.Pairwise (fun a b => rowEq c a b = false) ∧
+    (∀ v ∈ (uniqueRows c pts).1, v ∈ pts) ∧ (uniqueRows c pts).2.length = pts.length :=
+  ⟨uniqueRows_inverse h pts, uniqueRows_distinct h pts, uniqueRows_subset c pts, uniqueRows_length c pts⟩
+
+/-- C13 (`from_mesh`): `(vertices, faces) := fromMesh soup` ⇒ `vertices[faces]` is the soup, triangle by triangle and corner by
+corner, up to the carrier's `==` (over floats: up to the sign of a zero); as many faces as triangles; every index in range -/
+theorem from_mesh_roundtrip {α : Type} [Num α] {c : RowCmp α} (h : RowLaws c) (soup : List (Tri α)) :
+    List.Forall₂ (fun a b : Tri α => rowEq c a.1 b.1 = true ∧ rowEq c a.2.1 b.2.1 = true ∧ rowEq c a.2.2 b.2.2 = true)
+      (meshArray (fromMesh c soup).1 (fromMesh c soup).2) soup ∧
+    (fromMesh c soup).2.length = soup.length ∧
+    ∀ f ∈ (fromMesh c soup).2, FaceInRange (fromMesh c soup).1.length f :=
+  ⟨fromMesh_roundtrip h soup, fromMesh_faces_length c soup, fromMesh_faces_in_range h soup⟩
+
+/-- … hence every quantity computed from the `(n, 3, 3)` array that respects the carrier's `==` (the sheet sum and the ray-casting
+inside test are compositions of arithmetic and comparisons, which do) is the same for the converted mesh and for the soup -/
+theorem from_mesh_preserves_respecting {α β : Type} [Num α] {c : RowCmp α} (h : RowLaws c) (g : List (Tri α) → β)
+    (hg : ∀ m m', List.Forall₂ (fun a b : Tri α => rowEq c a.1 b.1 = true ∧ rowEq c a.2.1 b.2.1 = true ∧ rowEq c a.2.2 b.2.2 = true) m m' →
+      g m = g m') (soup : List (Tri α)) :
+    g (meshArray (fromMesh c soup).1 (fromMesh c soup).2) = g soup :=
+  hg _ _ (fromMesh_roundtrip h soup)
+
+/-- over ℝ (`==` is identity) the round trip is an identity: `TriangularMesh.from_mesh(soup).mesh = soup` -/
+theorem from_mesh_roundtrip_real (soup : List (Tri ℝ)) :
+    meshArray (fromMesh RowCmp.real soup).1 (fromMesh RowCmp.real soup).2 = soup :=
+  fromMesh_roundtrip_real soup
+
+/-- `from_triangles` runs the same two lines on `[tria.vertices for tria in triangles]` -/
+theorem from_triangles_roundtrip (triangleVertices : List (Tri ℝ)) :
+    meshArray (fromTriangles RowCmp.real triangleVertices).1 (fromTriangles RowCmp.real triangleVertices).2 = triangleVertices :=
+  fromMesh_roundtrip_real triangleVertices
+
+/-- the vertices are the distinct corner points of the soup, each once: number of vertices = number of distinct points -/
+theorem from_mesh_vertex_count [DecidableEq (V3 ℝ)] (soup : List (Tri ℝ)) :
+    (fromMesh RowCmp.real soup).1.Nodup ∧ (∀ p, p ∈ (fromMesh RowCmp.real soup).1 ↔ p ∈ soupPoints soup) ∧
+    (fromMesh RowCmp.real soup).1.length = (soupPoints soup).toFinset.card :=
+  ⟨fromMesh_vertices_nodup soup, fromMesh_vertices_mem soup, fromMesh_vertex_count soup⟩
+
+/-- C13 (`from_mesh` / `from_triangles` preserve the field): for every batch, replacing each row's soup by the `mesh` property of the
+TriangularMesh that `from_mesh` builds from it leaves all four outputs of `BHJM_magnet_trimesh` unchanged (inside test and mesh
+identification as parameters) -/
+theorem from_mesh_preserves_field {M : Type} [DecidableEq M] (f : Field) (meshId : MeshRow ℝ → M) (inside : M → V3 ℝ → Bool)
+    (rows : List (MeshRow ℝ)) :
+    bhjmTrimesh f meshId inside (rows.map fun r =>
+        { r with faces := meshArray (fromMesh RowCmp.real r.faces).1 (fromMesh RowCmp.real r.faces).2 }) =
+      bhjmTrimesh f meshId inside rows := by
+  have : (rows.map fun r : MeshRow ℝ =>
+      { r with faces := meshArray (fromMesh RowCmp.real r.faces).1 (fromMesh RowCmp.real r.faces).2 }) = rows := by
+    conv_rhs => rw [← List.map_id rows]
+    apply List.map_congr_left
+    intro r _
+    rw [fromMesh_roundtrip_real]; rfl
+  rw [this]
+
+-- non-vacuity: a soup of two triangles sharing an edge (4 distinct corners out of 6); the hypotheses of the general statement hold over ℝ
+example : RowLaws RowCmp.real := rowLaws_real
+example : soupPoints [((⟨0, 0, 0⟩ : V3 ℝ), (⟨1, 0, 0⟩ : V3 ℝ), (⟨0, 1, 0⟩ : V3 ℝ)), (⟨1, 0, 0⟩, ⟨0, 1, 0⟩, ⟨1, 1, 0⟩)] =
+    [⟨0, 0, 0⟩, ⟨1, 0, 0⟩, ⟨0, 1, 0⟩, ⟨1, 0, 0⟩, ⟨0, 1, 0⟩, ⟨1, 1, 0⟩] := rfl
+-- the exclusion of NaN is necessary: with an element type whose `==` is not reflexive the run head is not `==` to itself
+example : ¬ RowLaws (⟨fun _ _ => false, fun _ _ => false⟩ : RowCmp Unit) := fun h => by
+  have := h.refl ⟨(), (), ()⟩
+  simp [rowEq] at this
+
+/-- C13 (`to_TriangleCollection`): the Collection of `Triangle(polarization, vertices = v) for v in self.mesh` — whose field is the
+sum of its children's fields (C05/C06) — has H = the sheet sum / μ₀, B = the sheet sum with NO inside term, J = M = 0: the `wrapH`
+dispatch of the TriangularMesh with the inside verdict replaced by `false` -/
+theorem to_triangle_collection_is_sheet_sum (f : Field) (mesh : List (Tri ℝ)) (pol obs : V3 ℝ) :
+    sum3 (mesh.map fun t => bhjmTriangle f t.1 t.2.1 t.2.2 pol obs) = wrapH f false pol (sheetSum mesh pol obs) := by
+  induction mesh with
+  | nil => rw [List.map_nil, sum3_nil, sheetSum_nil, wrapH_zero]
+  | cons t ts ih =>
+    rw [List.map_cons, sum3_cons, ih, sheetSum_cons]
+    cases f <;> apply V3.ext' <;> simp [bhjmTriangle, wrapH, vd, zero3, n] <;> ring
+
+/-- … so the collection has the TriangularMesh's H everywhere, and its B, J, M wherever the mesh's inside test answers "outside" -/
+theorem to_triangle_collection_preserves_field {M : Type} (f : Field) (meshId : MeshRow ℝ → M) (inside : M → V3 ℝ → Bool)
+    (r : MeshRow ℝ) (h : f = .H ∨ inside (meshId r) r.obs = false) :
+    sum3 (r.faces.map fun t => bhjmTriangle f t.1 t.2.1 t.2.2 r.pol r.obs) = bhjmTrimeshRow f meshId inside r := by
+  rw [to_triangle_collection_is_sheet_sum, trimesh_row_is_wrapH_of_sheets]
+  rcases h with rfl | h
+  · rfl
+  · rw [h]; rfl
+
+-- inside the body the collection's B differs from the mesh's by the polarization (the `outside` hypothesis is necessary for B)
+example (pol s : V3 ℝ) : wrapH .B true pol s = wrapH .B false pol s + pol := by
+  apply V3.ext' <;> simp [wrapH, zero3, n]
+
+end MagpyVerif.C13
+
+/-! ### Gluing meshes and tetrahedra along shared walls (Lemmas/TrimeshGlue.lean)
+
+A body cut into parts with the same polarization whose surfaces are triangulated so that the cut carries the SAME triangles on both
+sides (with opposite winding): the internal walls cancel (`triangle_field_flip`), and with the inside predicate of the whole the
+disjunction of the parts' predicates (at most one true at the observer) B, H, J, M of the parts add up to those of the whole. -/
+namespace MagpyVerif.C13
+open MagpyVerif MagpyVerif.Kern
+
+/-- C13 (meshes, the sheet sums): `A` = walls `W` + rest `A'`, `B` = flipped walls `W'` + rest `B'` (faces in any order; a flipped
+copy has two corners exchanged, any two); observer outside the `on_edge` tolerance of the walls' edges.  Then the mesh `A' ++ B'`
+(the union without the internal walls) has the sheet sum of `A` plus that of `B`. -/
+theorem trimesh_glue_sheets {A B A' B' W W' : List (Tri ℝ)} (hA : A.Perm (W ++ A')) (hB : B.Perm (W' ++ B'))
+    (hf : List.Forall₂ TriFlipped W W') (pol obs : V3 ℝ) (hoff : ∀ t ∈ W, TriOffEdges t.1 t.2.1 t.2.2 obs) :
+    sheetSum (A' ++ B') pol obs = sheetSum A pol obs + sheetSum B pol obs :=
+  sheetSum_glue hA hB hf pol obs hoff
+
+/-- C13 (meshes, all four fields): three rows of `BHJM_magnet_trimesh` with the same observer and polarization — the parts `A`,
+`B` and the glued mesh `A' ++ B'`; the inside test of the glued mesh is the disjunction of the parts' tests and the observer is
+not inside both.  Then B, H, J, M of the glued mesh = the sum of the parts' B, H, J, M. -/
+theorem trimesh_glue_additive {M : Type} (f : Field) (meshId : MeshRow ℝ → M) (inside : M → V3 ℝ → Bool)
+    {A B A' B' W W' : List (Tri ℝ)} (hA : A.Perm (W ++ A')) (hB : B.Perm (W' ++ B')) (hf : List.Forall₂ TriFlipped W W')
+    (pol obs : V3 ℝ) (hoff : ∀ t ∈ W, TriOffEdges t.1 t.2.1 t.2.2 obs)
+    (hin : inside (meshId ⟨A' ++ B', obs, pol⟩) obs = (inside (meshId ⟨A, obs, pol⟩) obs || inside (meshId ⟨B, obs, pol⟩) obs))
+    (hdisj : ¬ (inside (meshId ⟨A, obs, pol⟩) obs = true ∧ inside (meshId ⟨B, obs, pol⟩) obs = true)) :
+    bhjmTrimeshRow f meshId inside ⟨A' ++ B', obs, pol⟩ =
+      bhjmTrimeshRow f meshId inside ⟨A, obs, pol⟩ + bhjmTrimeshRow f meshId inside ⟨B, obs, pol⟩ := by
+  simp only [trimesh_row_is_wrapH_of_sheets]
+  rw [hin]
+  show wrapH f _ pol (sheetSum (A' ++ B') pol obs) = wrapH f _ pol (sheetSum A pol obs) + wrapH f _ pol (sheetSum B pol obs)
+  rw [sheetSum_glue hA hB hf pol obs hoff]
+  exact wrapH_glue f _ _ hdisj pol _ _
+
+-- the exclusion "not inside both" is necessary (an observer counted by both parts gets J twice)
+example : wrapH .J (true || true) (⟨0, 0, 1⟩ : V3 ℝ) (zero3 + zero3) ≠
+    wrapH .J true ⟨0, 0, 1⟩ zero3 + wrapH .J true ⟨0, 0, 1⟩ zero3 := wrapH_glue_needs_disjoint
+
+/-- C13 (two tetrahedra sharing a face): `Tetrahedron(a,b,c,d)` and `Tetrahedron(a,b,c,e)` with the apexes `d`, `e` on opposite
+sides of the common face; observer off the plane of that face and outside the `on_edge` tolerance of its edges.  The sum of the two
+`BHJM_magnet_tetrahedron` outputs (all four fields, same polarization) is the `wrapH` dispatch — inside one or the other — of the
+sheet sum of the SIX outer faces: the field of the bipyramid as a 6-face TriangularMesh. -/
+theorem tetra_pair_glue (f : Field) (a b c d e pol x : V3 ℝ)
+    (hd : 0 < det3 (b - a) (c - a) (d - a)) (he : det3 (b - a) (c - a) (e - a) < 0)
+    (hx : det3 (b - a) (c - a) (x - a) ≠ 0) (hoff : TriOffEdges a c b x) :
+    bhjmTetra f a b c d pol x + bhjmTetra f a b c e pol x =
+      wrapH f (tetraInside a b c d x || tetraInside a b c e x) pol
+        (sheetSum [(a, b, d), (b, c, d), (a, d, c), (a, e, b), (b, e, c), (a, c, e)] pol x) := by
+  have h1 := tetra_is_wrapH_of_sheetSum f (a, b, c, d) pol x
+  have h2 := tetra_is_wrapH_of_sheetSum f (a, b, c, e) pol x
+  have f1 : tetraFaces (a, b, c, d) = [(a, c, b)] ++ [(a, b, d), (b, c, d), (a, d, c)] := by
+    simp [tetraFaces, tetraChirality, n, not_lt.mpr hd.le]
+  have f2 : tetraFaces (a, b, c, e) = [(a, e, b), (a, b, c), (b, e, c), (a, c, e)] := by
+    simp [tetraFaces, tetraChirality, n, he]
+  have p2 : (tetraFaces (a, b, c, e)).Perm ([(a, b, c)] ++ [(a, e, b), (b, e, c), (a, c, e)]) := by
+    rw [f2]; exact List.Perm.swap _ _ _
+  have hg := sheetSum_glue (W := [(a, c, b)]) (W' := [(a, b, c)]) (List.Perm.of_eq f1) p2
+    (List.Forall₂.cons (TriFlipped.swap12 a c b) List.Forall₂.nil) pol x (by
+      intro t ht; rw [List.mem_singleton] at ht; subst ht; exact hoff)
+  simp only at h1 h2
+  rw [h1, h2, ← wrapH_glue f _ _ (tetra_pair_disjoint a b c d e x hd he hx) pol, ← hg]
+  rfl
+
+/-- the same as a statement about the TriangularMesh made of the six outer faces, whose inside test is the union of the two -/
+theorem tetra_pair_is_mesh {M : Type} (f : Field) (meshId : MeshRow ℝ → M) (inside : M → V3 ℝ → Bool) (a b c d e pol x : V3 ℝ)
+    (hd : 0 < det3 (b - a) (c - a) (d - a)) (he : det3 (b - a) (c - a) (e - a) < 0)
+    (hx : det3 (b - a) (c - a) (x - a) ≠ 0) (hoff : TriOffEdges a c b x)
+    (hin : inside (meshId ⟨[(a, b, d), (b, c, d), (a, d, c), (a, e, b), (b, e, c), (a, c, e)], x, pol⟩) x =
+      (tetraInside a b c d x || tetraInside a b c e x)) :
+    bhjmTrimeshRow f meshId inside ⟨[(a, b, d), (b, c, d), (a, d, c), (a, e, b), (b, e, c), (a, c, e)], x, pol⟩ =
+      bhjmTetra f a b c d pol x + bhjmTetra f a b c e pol x := by
+  rw [tetra_pair_glue f a b c d e pol x hd he hx hoff, trimesh_row_is_wrapH_of_sheets, hin]
+  rfl
+
+-- non-vacuity: base (0,0,0), (1,0,0), (0,1,0), apexes (0,0,1) and (0,0,-1), observer (1/4, 1/4, 1/2) — inside the upper part
+example : 0 < det3 ((⟨1, 0, 0⟩ : V3 ℝ) - ⟨0, 0, 0⟩) (⟨0, 1, 0⟩ - ⟨0, 0, 0⟩) (⟨0, 0, 1⟩ - ⟨0, 0, 0⟩) ∧
+    det3 ((⟨1, 0, 0⟩ : V3 ℝ) - ⟨0, 0, 0⟩) (⟨0, 1, 0⟩ - ⟨0, 0, 0⟩) (⟨0, 0, -1⟩ - ⟨0, 0, 0⟩) < 0 ∧
+    det3 ((⟨1, 0, 0⟩ : V3 ℝ) - ⟨0, 0, 0⟩) (⟨0, 1, 0⟩ - ⟨0, 0, 0⟩) (⟨1 / 4, 1 / 4, 1 / 2⟩ - ⟨0, 0, 0⟩) ≠ 0 ∧
+    TriOffEdges (⟨0, 0, 0⟩ : V3 ℝ) ⟨0, 1, 0⟩ ⟨1, 0, 0⟩ ⟨1 / 4, 1 / 4, 1 / 2⟩ ∧
+    tetraInside (⟨0, 0, 0⟩ : V3 ℝ) ⟨1, 0, 0⟩ ⟨0, 1, 0⟩ ⟨0, 0, 1⟩ ⟨1 / 4, 1 / 4, 1 / 2⟩ = true := by
+  refine ⟨by simp [det3], by simp [det3], by simp [det3], ⟨?_, ?_, ?_⟩, ?_⟩
+  · simp only [TriEdgeOnV, triEdgeOn, V3.dot, V3.cross, V3.sub_x, V3.sub_y, V3.sub_z]; norm_num
+  · simp only [TriEdgeOnV, triEdgeOn, V3.dot, V3.cross, V3.sub_x, V3.sub_y, V3.sub_z]; norm_num
+  · simp only [TriEdgeOnV, triEdgeOn, V3.dot, V3.cross, V3.sub_x, V3.sub_y, V3.sub_z]; norm_num
+  · simp [tetraInside, det3, n]; norm_num
+
+/-- C13 (a body cut into tetrahedra along full faces): the faces of all tetrahedra are — in any order — the boundary `Bd`, the
+internal walls `W` and the flipped copies `W'` of the walls; the observer is inside at most one tetrahedron and outside the
+`on_edge` tolerance of the walls' edges.  The fields of the tetrahedra (same polarization, all four of B, H, J, M) add up to the
+`wrapH` dispatch of the boundary's sheet sum with the disjunction of the inside tests, i.e. to the TriangularMesh `Bd`. -/
+theorem tetra_list_glue (f : Field) (Ts : List (V3 ℝ × V3 ℝ × V3 ℝ × V3 ℝ)) (Bd W W' : List (Tri ℝ)) (pol x : V3 ℝ)
+    (hperm : (Ts.flatMap tetraFaces).Perm (Bd ++ (W ++ W'))) (hf : List.Forall₂ TriFlipped W W')
+    (hoff : ∀ t ∈ W, TriOffEdges t.1 t.2.1 t.2.2 x)
+    (hdisj : Ts.Pairwise fun S T => ¬ (tetraInside S.1 S.2.1 S.2.2.1 S.2.2.2 x = true ∧ tetraInside T.1 T.2.1 T.2.2.1 T.2.2.2 x = true)) :
+    sum3 (Ts.map fun T => bhjmTetra f T.1 T.2.1 T.2.2.1 T.2.2.2 pol x) =
+      wrapH f (Ts.any fun T => tetraInside T.1 T.2.1 T.2.2.1 T.2.2.2 x) pol (sheetSum Bd pol x) :=
+  Kern.tetra_list_glue f Ts Bd W W' pol x hperm hf hoff hdisj
+
+end MagpyVerif.C13
+
+/-! ### Cutting a Triangle sheet through a point of an edge (Lemmas/TriangleSplit.lean) -/
+namespace MagpyVerif.C13
+open MagpyVerif MagpyVerif.Kern
+
+/- FULL (`triangle_split_additive`): for `m = a + τ (b − a)`, `0 < τ < 1`, and every observer off the line `a b` and outside the
+`on_edge` tolerance of the four edges involved, `triangleB a m c + triangleB m b c = triangleB a b c`.  Proved below EXCEPT for the
+solid-angle terms: that the two Van Oosterom–Strackee values `2·atan2(N, D)` (with the code's clamp `|·| > 6.2831853 ↦ 0`) of the
+pieces add up to that of the whole is the named hypothesis `SolidAngleAdditive`.  It holds off the plane of the triangle (three
+signed solid angles of one sign, each below 2π) and is proved here only in the sector of the plane where all of them vanish
+(`solid_angle_additive_coplanar`); in general it needs `arg z₁ + arg z₂ = arg (z₁ z₂)` for `z = D + iN` together with the
+factorisation `z(a,m,c) · z(m,b,c) = k · z(a,b,c)`, `k > 0` — not done. -/
+/-- C13 (Triangle, everything but the solid angle): the normal of both pieces is the normal of the whole, the edge integral along
+`a b` is additive over the subdivision (`τ·I(a→m) + (1−τ)·I(m→b) = I(a→b)`: every branch of the cancellation-free form is
+`log(g(end)/g(start))/l`), the new edge `m c` is run once in each direction and cancels -/
+theorem triangle_split_additive_partial (a b c pol obs : V3 ℝ) (τ : ℝ) (h0 : 0 < τ) (h1 : τ < 1)
+    (hline : 0 < V3.dot (V3.cross (a - obs) (b - a)) (V3.cross (a - obs) (b - a)))
+    (hoffW : ¬ TriEdgeOnV (a - obs) (b - obs) (b - a))
+    (hoff1 : ¬ TriEdgeOnV (a - obs) (a + vs τ (b - a) - obs) (a + vs τ (b - a) - a))
+    (hoff2 : ¬ TriEdgeOnV (a + vs τ (b - a) - obs) (b - obs) (b - (a + vs τ (b - a))))
+    (hoffM : ¬ TriEdgeOnV (a + vs τ (b - a) - obs) (c - obs) (c - (a + vs τ (b - a))))
+    (hsa : SolidAngleAdditive a (a + vs τ (b - a)) b c obs) :
+    triangleB a (a + vs τ (b - a)) c pol obs + triangleB (a + vs τ (b - a)) b c pol obs = triangleB a b c pol obs :=
+  triangleB_split a b c pol obs τ h0 h1 hline hoffW hoff1 hoff2 hoffM hsa
+
+/-- the edge integral of `triangle_Bfield` is additive over a subdivision of the edge (the part of the statement that carries the
+case distinctions of the code) -/
+theorem triangle_edge_integral_split (R L : V3 ℝ) (τ : ℝ) (h0 : 0 < τ) (h1 : τ < 1) (hL : 0 < V3.dot L L)
+    (hX : 0 < V3.dot (V3.cross R L) (V3.cross R L))
+    (hoffW : ¬ TriEdgeOnV R (R + L) L) (hoff1 : ¬ TriEdgeOnV R (R + vs τ L) (vs τ L))
+    (hoff2 : ¬ TriEdgeOnV (R + vs τ L) (R + L) (vs (1 - τ) L)) :
+    τ * triEdgeI R (R + vs τ L) (vs τ L) + (1 - τ) * triEdgeI (R + vs τ L) (R + L) (vs (1 - τ) L) = triEdgeI R (R + L) L :=
+  triEdgeI_split R L τ h0 h1 hL hX hoffW hoff1 hoff2
+
+/-- `SolidAngleAdditive` in the part of the triangle's plane where the corners and the cut point are seen under pairwise acute
+angles (all three values are 0 there) -/
+theorem solid_angle_additive_coplanar (a m b c obs : V3 ℝ)
+    (hN1 : V3.dot (c - obs) (V3.cross (m - obs) (a - obs)) = 0) (hN2 : V3.dot (c - obs) (V3.cross (b - obs) (m - obs)) = 0)
+    (hN : V3.dot (c - obs) (V3.cross (b - obs) (a - obs)) = 0)
+    (d1 : 0 ≤ V3.dot (c - obs) (m - obs)) (d2 : 0 ≤ V3.dot (c - obs) (a - obs)) (d3 : 0 ≤ V3.dot (m - obs) (a - obs))
+    (d4 : 0 ≤ V3.dot (c - obs) (b - obs)) (d5 : 0 ≤ V3.dot (b - obs) (m - obs)) (d6 : 0 ≤ V3.dot (b - obs) (a - obs)) :
+    SolidAngleAdditive a m b c obs :=
+  solidAngleAdditive_of_coplanar a m b c obs hN1 hN2 hN d1 d2 d3 d4 d5 d6
+
+-- non-vacuity: the triangle (0,0,0), (2,0,0), (0,1,0) cut at the midpoint (1,0,0) of its first edge, observer (−1,−1,0): every
+-- hypothesis of `triangle_split_additive_partial` holds (the sheet's field there is not zero: the edge integrals are not)
+example (pol : V3 ℝ) :
+    triangleB (⟨0, 0, 0⟩ : V3 ℝ) (⟨0, 0, 0⟩ + vs (1 / 2) (⟨2, 0, 0⟩ - ⟨0, 0, 0⟩)) ⟨0, 1, 0⟩ pol ⟨-1, -1, 0⟩ +
+      triangleB ((⟨0, 0, 0⟩ : V3 ℝ) + vs (1 / 2) (⟨2, 0, 0⟩ - ⟨0, 0, 0⟩)) ⟨2, 0, 0⟩ ⟨0, 1, 0⟩ pol ⟨-1, -1, 0⟩ =
+    triangleB (⟨0, 0, 0⟩ : V3 ℝ) ⟨2, 0, 0⟩ ⟨0, 1, 0⟩ pol ⟨-1, -1, 0⟩ := by
+  apply triangle_split_additive_partial _ _ _ pol _ (1 / 2) (by norm_num) (by norm_num)
+  · simp [V3.dot, V3.cross]
+  · simp only [TriEdgeOnV, triEdgeOn, V3.dot, V3.cross, V3.sub_x, V3.sub_y, V3.sub_z, V3.add_x, V3.add_y, V3.add_z, vs]; norm_num
+  · simp only [TriEdgeOnV, triEdgeOn, V3.dot, V3.cross, V3.sub_x, V3.sub_y, V3.sub_z, V3.add_x, V3.add_y, V3.add_z, vs]; norm_num
+  · simp only [TriEdgeOnV, triEdgeOn, V3.dot, V3.cross, V3.sub_x, V3.sub_y, V3.sub_z, V3.add_x, V3.add_y, V3.add_z, vs]; norm_num
+  · simp only [TriEdgeOnV, triEdgeOn, V3.dot, V3.cross, V3.sub_x, V3.sub_y, V3.sub_z, V3.add_x, V3.add_y, V3.add_z, vs]; norm_num
+  · apply solid_angle_additive_coplanar <;> simp [V3.dot, V3.cross, vs] <;> norm_num
 
 end MagpyVerif.C13
